@@ -84,7 +84,7 @@ class Ctx:
         self.prop = prop; self.tier = tier; self.seed = seed; self.level = level
         self.t0 = time.time(); self.res = Result(); self.known = load_known(prop)
         self.rule = ''; self.assumptions = []; self.extra = {}
-        self.outdir = os.path.join(VERIF, 'out', prop); os.makedirs(self.outdir, exist_ok=True)
+        self.outdir = os.path.join(os.environ.get('VERIF_OUT_DIR') or os.path.join(VERIF, 'out'), prop); os.makedirs(self.outdir, exist_ok=True)   # (developer runs against scratch trees redirect out/ and evidence/)
     # ------------------------------------------------------------------
     def classify(self, obs):
         """returns known entry or None"""
@@ -125,11 +125,12 @@ class Ctx:
         if r.notes: cov['notes'] = r.notes[:20]
         ev = dict(property_id=self.prop, tier=self.tier, seed=int(self.seed), level=self.level, coverage=cov,
                   assumptions=self.assumptions, wall_s=round(time.time() - self.t0, 2), violations=len(seen))
-        os.makedirs(os.path.join(VERIF, 'evidence'), exist_ok=True)
-        tmp = os.path.join(VERIF, 'evidence', '.%s.tmp' % self.prop)
+        evdir = os.environ.get('VERIF_EVIDENCE_DIR') or os.path.join(VERIF, 'evidence')
+        os.makedirs(evdir, exist_ok=True)
+        tmp = os.path.join(evdir, '.%s.tmp' % self.prop)
         with open(tmp, 'w') as f:
             json.dump(ev, f, indent=1, default=str)
-        os.replace(tmp, os.path.join(VERIF, 'evidence', '%s.json' % self.prop))
+        os.replace(tmp, os.path.join(evdir, '%s.json' % self.prop))
         if r.evaluations == 0 or len(r.nontrivial) < 2:
             if not lines or rc == 0:
                 sys.stderr.write('[%s] warning: %d evaluations, %d non-trivial\n' % (self.prop, r.evaluations, len(r.nontrivial)))
